@@ -133,7 +133,7 @@ func init() {
 }
 
 func staleBatch(n int, maxLen int) []string {
-	toks := []string{"SYN", "SYNACK", "DATA", "ACK", "NACK", "FIN"}
+	toks := []string{"SYN", "SYNX", "SYNACK", "DATA", "ACK", "NACK", "FIN"}
 	var seqs []string
 	for _, a := range toks {
 		seqs = append(seqs, a)
@@ -209,6 +209,8 @@ func init() {
 			{Scenario: "kadead/N=2/kaside=c/k=1", Budgets: bs(B(0, 1)), Split: 1},
 			{Scenario: "kadead/N=2/kaside=s/k=1", Budgets: bs(B(0, 1)), Split: 1},
 			{Scenario: "kadead/N=1/ka=2s,1s", Budgets: bs(B(0, 1)), Split: 1},
+			{Scenario: "kadead/N=1/ka=1s,3s/kaside=s/k=1", Budgets: bs(B(0, 1)), Split: 1},
+			{Scenario: "kadead/N=2/ka=1s,3s/kaside=c/k=4", Budgets: bs(B(0, 1)), Split: 1},
 			{Scenario: "kadead/N=1/ka=2s,1s/k=2/until=5s", Budgets: bs(B(1, 1)), Filter: "tickeronly", Split: 1},
 		},
 		thorough: []Job{
